@@ -5,9 +5,14 @@
     [C17_vt_refines] and [C17_vt_in_bounds] are proved, is shown equal to it for State,
     CursorPosition, updateDataOffset (the uint32 arithmetic of the buffer offset, widened to uint:
     the place where the cursor, the viewport and the buffer meet), SetCursorPosition and cr.
-    Statements only; proofs are in Tty/VtTrans.v.  AttachTo, SetState, Write, WriteByte, doWrite and lf
-    (loops, console calls) are outside the translator's subset. *)
-From Coq Require Import NArith List.
+    Statements only; proofs are in Tty/VtTrans.v.
+
+    SECOND PART (below): the extended mode of gen/gotrans (loops on fuel, stores, switch, Go int, console
+    calls as events; Gen/Trans_tty_vt_full.v, regenerated on every run from the same file) covers the
+    WHOLE of vt.go: lf, doWrite, WriteByte, Write, SetState and AttachTo are proved equal to the
+    hand-written model too - states, returned values, console calls and run-time panics.  Proofs are in
+    Tty/VtFullTrans.v. *)
+From Coq Require Import NArith String List Bool.
 From FF Require Import Lib.Word Lib.GoOps Gen.Trans_tty_vt Tty.Vt Tty.VtTrans.
 Local Open Scope N_scope.
 
@@ -25,3 +30,115 @@ Proof.
         (fun x y => setCursorPosition_is_translation v x y))))).
 Qed.
 Print Assumptions C17_vt_model_is_translation.
+
+(** ---------------------------------------------------------------------------------------------
+    Second part: every method of tty.VT, in the extended translation.
+    [F.*] = Gen/Trans_tty_vt_full.v (results in [gres]: GOk / GPanic = Go run-time panic / GFuel = a loop
+    ran out of fuel).  [T.to_gof] maps the model's record to the translation's (console reference = "is
+    non-nil", the console calls of [trace] as [gevent]s, most recent first).
+    Preconditions: [T.vt_pre v] - the record is a Go value whose int arithmetic in lf cannot overflow
+    (viewportY < 2^32, len(data) < 2^63, stride = uint32(3*viewportWidth) < 2^31; beyond that the
+    hand-written model, which computes the scroll offsets in unbounded N, and Go's int differ);
+    tabWidth is a uint8; for lf / doWrite the console is attached or the terminal inactive (WriteByte,
+    Write and SetState check it themselves; a call through a nil console is a panic in the translation).
+    Fuel: [T.vt_fuel v] = 2^32 * stride + 256 bounds every loop of lf (scroll: at most 2^32 * stride
+    iterations; blank: stride) and the tab loop (255); Write needs in addition fuel > len(data);
+    SetState fuel > viewportWidth + 1 and > viewportHeight + 1; AttachTo fuel > 2^32 (the fill loop runs
+    len/3 + 1 <= 2^32 / 3 + 1 times).  [C17_vt_trans_pre_kept]: the preconditions and the fuel bound are
+    kept by every operation, so the equalities chain along a history. *)
+From FF Require Gen.Trans_tty_vt_full Tty.VtFullTrans.
+Module F := FF.Gen.Trans_tty_vt_full.
+Module T := FF.Tty.VtFullTrans.
+
+Theorem C17_vt_full_loopfree_is_translation :
+  forall v : vt,
+    F.go_tty_VT_State (T.to_gof v) = GOk (T.to_gof v, st v) /\
+    F.go_tty_VT_CursorPosition (T.to_gof v) = GOk (T.to_gof v, (cx v, cy v)) /\
+    F.go_tty_VT_updateDataOffset (T.to_gof v) = GOk (T.to_gof (update_data_offset v), tt) /\
+    F.go_tty_VT_cr (T.to_gof v) = GOk (T.to_gof (cr v), tt) /\
+    (forall x y, F.go_tty_VT_SetCursorPosition (T.to_gof v) x y = GOk (T.to_gof (set_cursor_position v x y), tt)).
+Proof.
+  intros v.
+  exact (conj (T.state_full v) (conj (T.cursorPosition_full v)
+        (conj (T.updateDataOffset_full v) (conj (T.cr_full v)
+        (fun x y => T.setCursorPosition_full v x y))))).
+Qed.
+Print Assumptions C17_vt_full_loopfree_is_translation.
+
+(** lf: the two scroll loops and the console synchronisation *)
+Theorem C17_vt_lf_is_translation :
+  forall (v : vt) (withCR : bool) (fuel : nat),
+    T.vt_pre v -> attached v = true \/ active v = false -> (N.to_nat (T.vt_fuel v) < fuel)%nat ->
+    F.go_tty_VT_lf fuel (T.to_gof v) withCR =
+    match lf v withCR with Ok v' => GOk (T.to_gof v', tt) | PanicOOB => GPanic end.
+Proof. exact T.lf_is_translation. Qed.
+Print Assumptions C17_vt_lf_is_translation.
+
+Theorem C17_vt_doWrite_is_translation :
+  forall (v : vt) (b : N) (advance : bool) (fuel : nat),
+    T.vt_pre v -> attached v = true \/ active v = false -> (N.to_nat (T.vt_fuel v) < fuel)%nat ->
+    F.go_tty_VT_doWrite fuel (T.to_gof v) b advance =
+    match do_write v b advance with Ok v' => GOk (T.to_gof v', tt) | PanicOOB => GPanic end.
+Proof. exact T.doWrite_is_translation. Qed.
+Print Assumptions C17_vt_doWrite_is_translation.
+
+(** WriteByte (switch, the tab loop): error 1 of the model = io.ErrClosedPipe *)
+Theorem C17_vt_writeByte_is_translation :
+  forall (v : vt) (b : N) (fuel : nat),
+    T.vt_pre v -> tabw v < 256 -> (N.to_nat (T.vt_fuel v) < fuel)%nat ->
+    F.go_tty_VT_WriteByte fuel (T.to_gof v) b =
+    match write_byte v b with
+    | Ok (v', e) => GOk (T.to_gof v', if e =? 0 then None else Some "io.ErrClosedPipe"%string)
+    | PanicOOB => GPanic
+    end.
+Proof. exact T.writeByte_is_translation. Qed.
+Print Assumptions C17_vt_writeByte_is_translation.
+
+(** Write (range loop with early return): (count, err) *)
+Theorem C17_vt_write_is_translation :
+  forall (v : vt) (bs : list N) (fuel : nat),
+    T.vt_pre v -> tabw v < 256 -> (N.to_nat (T.vt_fuel v) < fuel)%nat -> (length bs < fuel)%nat ->
+    F.go_tty_VT_Write fuel (T.to_gof v) bs =
+    match write v bs 0 with
+    | Ok (v', n, e) => GOk (T.to_gof v', (n, if e =? 0 then None else Some "io.ErrClosedPipe"%string))
+    | PanicOOB => GPanic
+    end.
+Proof. exact T.write_is_translation. Qed.
+Print Assumptions C17_vt_write_is_translation.
+
+(** SetState (the nested redraw loops; uint32 counters: the viewport must be narrower / lower than 2^32 - 1) *)
+Theorem C17_vt_setState_is_translation :
+  forall (v : vt) (s : N) (fuel : nat),
+    vw v < two32 - 1 -> vh v < two32 - 1 ->
+    (N.to_nat (vw v) + 1 < fuel)%nat -> (N.to_nat (vh v) + 1 < fuel)%nat ->
+    F.go_tty_VT_SetState fuel (T.to_gof v) s =
+    match set_state v s with Ok v' => GOk (T.to_gof v', tt) | PanicOOB => GPanic end.
+Proof. exact T.setState_is_translation. Qed.
+Print Assumptions C17_vt_setState_is_translation.
+
+(** AttachTo: a nil console changes nothing; a console reporting Dimensions = (w, h), DefaultColors = (fg, bg)
+    (make([]uint8, n) and the fill loop) *)
+Theorem C17_vt_attachTo_is_translation :
+  forall (v : vt) (w h fg bg : N) (fuel : nat),
+    F.go_tty_VT_AttachTo fuel (T.to_gof v) false fg bg w h = GOk (T.to_gof v, tt) /\
+    ((N.to_nat two32 < fuel)%nat ->
+     F.go_tty_VT_AttachTo fuel (T.to_gof v) true fg bg w h =
+     match attach v w h fg bg with Ok v' => GOk (T.to_gof v', tt) | PanicOOB => GPanic end).
+Proof.
+  intros v w h fg bg fuel.
+  exact (conj (T.attachTo_nil_is_translation v fuel fg bg w h) (T.attachTo_is_translation v w h fg bg fuel)).
+Qed.
+Print Assumptions C17_vt_attachTo_is_translation.
+
+Theorem C17_vt_trans_pre_kept :
+  (forall v b v' e, write_byte v b = Ok (v', e) -> T.vt_pre v ->
+     T.vt_pre v' /\ tabw v' = tabw v /\ T.vt_fuel v' = T.vt_fuel v) /\
+  (forall v x y, T.vt_pre v ->
+     T.vt_pre (set_cursor_position v x y) /\ tabw (set_cursor_position v x y) = tabw v /\
+     T.vt_fuel (set_cursor_position v x y) = T.vt_fuel v) /\
+  (forall v s v', set_state v s = Ok v' -> T.vt_pre v ->
+     T.vt_pre v' /\ tabw v' = tabw v /\ T.vt_fuel v' = T.vt_fuel v) /\
+  (forall v w h fg bg v', attach v w h fg bg = Ok v' -> w32 (w * 3) < 2 ^ 31 ->
+     T.vt_pre v' /\ tabw v' = tabw v).
+Proof. exact T.vt_pre_kept. Qed.
+Print Assumptions C17_vt_trans_pre_kept.
